@@ -448,3 +448,37 @@ func (x *Exec) raViewPure(st *State, v Val) (string, string, bool) {
 	}
 	return "", "", false
 }
+
+// Out-buffer windows in contracts: a parameter declared `outbuf` is a window [lo, hi) onto a
+// backing array; re-slicing (p = p[k:]) moves the window, writes go through to the array.
+func init() {
+	byteSlice := types.NewSlice(types.Typ[types.Uint8])
+	win := func(e *specEnv, v SV) (SliceV, bool) {
+		sv, ok := v.V.(SliceV)
+		return sv, ok
+	}
+	specFuncs["whole"] = func(e *specEnv, args []SV) SV { // the whole backing array as it is now
+		sv, ok := win(e, args[0])
+		if !ok {
+			return e.fail("whole() needs an out-buffer window")
+		}
+		if tv, ok := e.st.cells[sv.Cell].(TV); ok {
+			return SV{V: tv, T: byteSlice}
+		}
+		return e.fail("whole(): backing array is not a sequence")
+	}
+	specFuncs["winlo"] = func(e *specEnv, args []SV) SV {
+		sv, ok := win(e, args[0])
+		if !ok {
+			return e.fail("winlo() needs an out-buffer window")
+		}
+		return SV{V: TV{SInt, sv.Lo}}
+	}
+	specFuncs["winhi"] = func(e *specEnv, args []SV) SV {
+		sv, ok := win(e, args[0])
+		if !ok {
+			return e.fail("winhi() needs an out-buffer window")
+		}
+		return SV{V: TV{SInt, sv.Hi}}
+	}
+}
